@@ -112,7 +112,7 @@ CHECKS["C03"] = {
     "thorough": {"shards": 16, "checks": 60000, "fuzz": {"target": "FuzzC03", "seconds": 240}},
     "rule": "two parts (plus, in 1 of 8 generated cases, the DEEP state of C04: one tree of 2^k leaves up to k=63 with leaf 0's path known, claims judged through Verify and a map forest started from the root). Enumerated (complete per state, states dealt over shards): for every forest with N<=4 leaves and ANY dead set, and selected N in 5..6 "
             "(thorough ..8): every tuple of k<=2 (thorough 3 for N<=4) targets in [0,maxPos], hashes and 0..3 proof hashes (fewer where the per-state cap "
-            "of 1.5M/12M tuples would be passed) from {every true node hash, one fresh value}, given to Verify and Pollard.Verify. Generated (rapid): states of "
+            "of 1.5M/12M tuples would be passed) from {every true node hash, one fresh value}, given to Verify and Pollard.Verify and, with the positions shifted, to Verify on the same state embedded behind 2^33 (odd states: 2^62+2^40) opaque leaves. Generated (rapid): states of "
             "up to 48 (thorough 300) leaves; an honest proof put through 1-3 structured mutations or a free tuple, given to Verify, Pollard.Verify, "
             "MapPollard.Verify, VerifyPartialProof (all proof hashes, and only the missing ones) and Verify on the forest embedded under a stump of up to "
             "2^62 leaves, and last to the REMEMBERING entry points (Pollard.Verify, MapPollard.Verify and VerifyPartialProof with remember=true); in a third of the cases the forests first take a detour (one more block, an honest Verify, Undo back) so that the claim meets long-lived forests. Oracle: accepted => every (non-zero) hash equals the model's node hash at its claimed position. Non-trivial: not an honest "
